@@ -263,7 +263,7 @@ func (r *runner) enumPDF(bi *baseInfo, phase int) {
 	}
 	r.singles(bi, S, "full")
 	if phase == 1 {
-		r.e.Add("structural_sites_raw", int64(len(S)))
+		r.sites["raw"] += len(S)
 	}
 
 	// (7) byte substitution
@@ -291,7 +291,7 @@ func (r *runner) enumPDF(bi *baseInfo, phase int) {
 	}
 	r.singles(bi, T, "full")
 	if phase == 1 {
-		r.e.Add("structural_sites_obj", int64(len(T)))
+		r.sites["obj"] += len(T)
 	}
 	for pi := 1; pi < len(bi.parts); pi++ {
 		p := bi.parts[pi]
@@ -378,7 +378,7 @@ func (r *runner) enumZip(bi *baseInfo, phase int) {
 	}
 	r.singles(bi, S, "full")
 	if phase == 1 {
-		r.e.Add("structural_sites_raw", int64(len(S)))
+		r.sites["raw"] += len(S)
 	}
 	r.subs(bi, 0, data, groupOf)
 
@@ -396,7 +396,7 @@ func (r *runner) enumZip(bi *baseInfo, phase int) {
 	}
 	r.singles(bi, T, "full")
 	if phase == 1 {
-		r.e.Add("structural_sites_member", int64(len(T)))
+		r.sites["member"] += len(T)
 	}
 	for pi := 1; pi < len(bi.parts); pi++ {
 		p := bi.parts[pi]
@@ -426,7 +426,7 @@ func (r *runner) enumHTML(bi *baseInfo, phase int) {
 	S := structuralEdits(0, data, false, 0, nil, g, nil)
 	r.singles(bi, S, "full")
 	if phase == 1 {
-		r.e.Add("structural_sites_raw", int64(len(S)))
+		r.sites["raw"] += len(S)
 	}
 	r.subs(bi, 0, data, g)
 	r.pairs(bi, S, phase == 2)
